@@ -97,12 +97,12 @@ func raceBlocks(log string) []string {
 	return out
 }
 
-var raceFrameRe = regexp.MustCompile(`(?m)^  ([^\s(]+)\(`)
+var raceFrameRe = regexp.MustCompile(`(?m)^  (\S+)\(\S*\)$`)
 
 // raceKey: the two access stacks reduced to their innermost frames inside sonic (or
 // the harness), line numbers stripped - reports of the same pair of accesses collapse.
 func raceKey(blk string) string {
-	secs := strings.Split(blk, "\n\n")
+	secs := strings.Split(strings.TrimPrefix(blk, "WARNING: DATA RACE\n"), "\n\n")
 	var keys []string
 	for _, sec := range secs {
 		if !(strings.Contains(sec, "Write at") || strings.Contains(sec, "Read at") || strings.Contains(sec, "Previous write") || strings.Contains(sec, "Previous read")) {
